@@ -107,6 +107,7 @@ func (m *memFile) Truncate(sz int64) error {
 		return &verifIOErr{"truncate beyond the simulated disk"}
 	}
 	if int(sz) <= len(m.data) {
+		copy(m.data[sz:], m.zeros) // the cut-off bytes are gone
 		m.data = m.data[:sz]
 	} else {
 		m.grow(int(sz))
